@@ -25,6 +25,7 @@ DECIDES += (" TP2: operations.transpose interpreted together with the real degre
 PKG = ('evaluators', 'helpers', 'operations', 'construct', 'control_points', 'compatibility', 'BSpline', 'NURBS', 'abstract', '_exchange', 'exchange',
        'fitting', 'utilities', '_tessellate', 'sweeping', 'multi', 'trimming', '_operations', 'convert', '_convert')
 DOC_CONTRACT = {'flip_ctrlpts_u': 'u-fastest', 'flip_ctrlpts': 'canonical'}
+DECIDES += (' CS2: construct_surface / construct_volume on sections and results of the real classes, every stacking direction, B-spline and rational: per-direction degree / knots / size, every control point and its weight is the section point the stacking prescribes. MG2 builds the manager by its own constructor chain.')
 
 
 def site(fi, node=None):
